@@ -128,10 +128,10 @@ def run(ctx):
     ctx.log("Relay.tla (faulty channel): violates %s (non-vacuity ok)" % rf.violated)
 
     maxsend = ctx.pick(5, 6)
-    g = ctx.tlc("Relay", cfg_text=gen_cfg(maxsend), workers=1, simulate=ctx.pick(500, 12000), depth=4 * maxsend + 2,
+    g = ctx.tlc("Relay", cfg_text=gen_cfg(maxsend), workers=1, simulate=ctx.pick(500, 6000), depth=4 * maxsend + 2,
                 count=False, timeout=1200)
     pool = g.printed_json("SCEN")
-    scens = select(pool, ctx.pick(40, 600), random.Random(ctx.seed))
+    scens = select(pool, ctx.pick(40, 280), random.Random(ctx.seed))
     combos = {(s["ver"], s["cthr"], s["bthr"]) for s in scens}
     ctx.log("scenarios: %d of %d simulated behaviours, %d (version, client thr, backend thr) combinations"
             % (len(scens), len(pool), len(combos)))
